@@ -178,9 +178,32 @@ loffset of its present parent 585 -/
 example : CsiIndex.WF ⟨14, 5, none, [⟨[(4681, [⟨200, 300⟩]), (585, [⟨100, 200⟩])],
     [(4681, 200), (585, 100)], some ⟨100, 300, 2, 0⟩⟩], some 0⟩ := by
   simp [CsiIndex.WF, RefCsi.WF, Bins.WF, Chunk.WF, metaWF, Meta.WF, unplacedWF, metaIdCsi]
-  refine ⟨?_, ?_⟩
+  refine ⟨by decide, ?_, ?_⟩
   · rintro a b (⟨rfl, rfl⟩ | ⟨rfl, rfl⟩) <;> simp
   · rintro a b (⟨rfl, rfl⟩ | ⟨rfl, rfl⟩) <;> simp
+
+/-- the deepest geometry the code admits, `depth = 10` (the pseudo-bin id `8^11/7 + 1` needs more
+than an `i32` shift; it used to overflow), is covered -/
+example : CsiIndex.WF ⟨14, 10, none, [], none⟩ := by
+  simp [CsiIndex.WF, unplacedWF]
+  decide
+
+/-- A geometry outside `validGeometry` (`min_shift = 0`, `min_shift + 3·depth ≥ 64`, or
+`depth > 10`) is never read: the reader answers `InvalidData` right after the two geometry fields,
+whatever follows — the queries' shifts and `bin_limit`'s assertion are never reached with it. -/
+theorem csi_invalid_geometry_rejected (ms d : Nat) (hms : ms < 256) (hd : d < 256)
+    (hg : validGeometry ms d = false) (rest : Bytes) :
+    readCsi (csiMagic ++ (Noodles.Codec.le 4 ms ++ (Noodles.Codec.le 4 d ++ rest))) = .error .invalid := by
+  unfold readCsi wrapInvalid decCsi
+  rw [decMagic_rt]
+  simp only
+  rw [decU8_rt ms hms]
+  simp only
+  rw [decU8_rt d hd]
+  simp [hg]
+
+example : validGeometry 0 0 = false ∧ validGeometry 255 9 = false ∧ validGeometry 14 11 = false ∧
+    validGeometry 14 5 = true ∧ validGeometry 1 10 = true := by decide
 
 example : RefCsi.Aligned ⟨[(4681, [⟨200, 300⟩]), (585, [⟨100, 200⟩])],
     [(4681, 200), (585, 100)], none⟩ := by
